@@ -211,8 +211,15 @@ func (mt *MarkdownTable) emitRow(
 			return err
 		}
 	}
-	if _, err := fmt.Fprint(w, mt.mdPaddedCellEscape(cells, widths, alignments, i), barRight); err != nil {
-		return err
+	if max > 0 {
+		if _, err := fmt.Fprint(w, mt.mdPaddedCellEscape(cells, widths, alignments, i), barRight); err != nil {
+			return err
+		}
+	} else {
+		// a row with no cells at all: bar already open, close the first (empty) column
+		if _, err := io.WriteString(w, "|"); err != nil {
+			return err
+		}
 	}
 	i++
 	for ; i < columnCount; i++ {
